@@ -13,6 +13,8 @@ ENGINES = [
          kind_free_text="Windows sources compiled on stub headers; exhaustive small-scope sweep + rapidcheck + libFuzzer with a round-trip oracle"),
     dict(name="vtime", path="src/common/vtime.hpp + src/vsys (hooks) + src/puppet.c + src/model/*.hpp", serves_properties=["C01", "C07", "C08", "C09", "C15", "C17"],
          kind_free_text="discrete-event scheduler with a virtual millisecond clock behind clock_gettime/poll/blocking read/write/waitpid; real kernel pipes and signals; scripted children; reference models as oracles"),
+    dict(name="tsan", path="src/vsys/vsys_mt.c + src/props/C20.cpp", serves_properties=["C20", "C11"],
+         kind_free_text="ThreadSanitizer build of the unmodified library behind a thread-safe pass-through shim with seeded yields; generated multi-thread plans against scripted children"),
     dict(name="dry", path="src/vsys/vsys.c (DRY mode) + src/model/options_model.hpp + src/props/C13.cpp", serves_properties=["C13"],
          kind_free_text="real reproc_start against a fake kernel in the shim; exhaustive enumeration of the option rule cube against an executable model of reproc.h"),
     dict(name="real", path="src/vsys + src/puppet.c + src/common/harness.cpp", serves_properties=["C03", "C04", "C05", "C06", "C10", "C11", "C12"],
@@ -169,16 +171,18 @@ prop(
     title="The child inherits no descriptor besides its three streams and the exit handle",
     level="exploration",
     engine="real",
-    campaigns=[dict(bin="C11", random=dict(quick=4000, thorough=80000))],
+    campaigns=[dict(bin="C11", random=dict(quick=4000, thorough=80000)),
+               # concurrent starts from 2-8 (thorough 24) threads on the thread engine, descriptor oracle only
+               dict(bin="C20", random=dict(quick=160, thorough=3000), env={"VERIF_C20_FDS_ONLY": "1"})],
     level_text=("Generated sets of extra parent descriptors (single, dense ranges, hundreds; always trying limit-1 and limit-2; files, pipes, sockets, "
                 "eventfds, directories; with and without close-on-exec) under generated RLIMIT_NOFILE soft limits (16 ... 4096, thorough 20000) and generated redirect "
                 "configurations; the oracle is the child's own /proc/self/fd listing at entry = {0, 1, 2, one write end of a pipe the parent holds}. Sampling."),
-    level_note="Trusts the puppet's /proc/self/fd snapshot taken before it opens anything. Concurrent starts from several threads are exercised by the C20 engine (same oracle).",
+    level_note="Trusts the puppet's /proc/self/fd snapshot taken before it opens anything. A second campaign starts children concurrently from 2-8 (thorough 24) threads on the thread engine (src/props/C20.cpp with only the descriptor/cross-talk oracle enabled): no child may hold a sibling's descriptor.",
     technique="property-based testing (rapidcheck tape) with real child processes; oracle = the child's own descriptor listing",
     rule=("limit from {16,20,24,32,64,100,256,1024,4096(,8192,20000)}; extras: none / 1-6 random / dense range of 1-40 / many (to 1000), plus limit-1 (p=2/3) and limit-2 (p=1/2); "
           "kind and close-on-exec per descriptor; redirect plan random incl. shorthands and start-up input. Non-trivial: an inheritable (no close-on-exec) descriptor >= 3 existed, or the highest "
           "permitted number was open and inheritable. Distinct: hash of limit, descriptor numbers and the redirect plan."),
-    essential=dict(quick=["inheritable-extra-descriptor", "highest-permitted-descriptor-open", "hundreds-of-descriptors", "tiny-limit", "large-limit"]),
+    essential=dict(quick=["inheritable-extra-descriptor", "highest-permitted-descriptor-open", "hundreds-of-descriptors", "tiny-limit", "large-limit", "concurrent-starts"]),
     assumptions=[
         "descriptors at or above the soft limit (possible only if the limit was lowered after opening them) are outside the property's 'up to the descriptor limit'",
         "the refusal branch for limits above 1 048 576 is reached by a getrlimit value fault in C04, not here",
@@ -453,4 +457,24 @@ prop(
           "streams piped and both non-empty, or a sink failure / allocation failure / deadline actually hit, or a run error path. Distinct: hash of configuration and script."),
     essential=dict(quick=["drain", "run", "both-streams-piped-and-nonempty", "sink-failure-hit", "allocation-failure-hit", "deadline-hit", "via-cxx", "string-sink", "null-sink-function", "stderr-to-stdout", "unpiped-stream", "run-error-path", "run:reproc_run_ex", "run:reproc_run", "run:reproc::run"]),
     assumptions=["child output contains no NUL bytes (documented limitation of the string sink)", "reproc_run is exercised with the discard shorthand so that the child's output does not land in the worker's log"],
+)
+
+prop(
+    "C20",
+    title="Documented thread-safety: distinct operations and distinct children race-free",
+    level="exploration",
+    engine="tsan",
+    campaigns=[dict(bin="C20", random=dict(quick=600, thorough=12000))],
+    level_text=("Generated plans of 2-8 (thorough 24) threads released together: worker threads run 1-3 complete cycles (start a child, write its input in chunks, close stdin, read the echo to the "
+                "end, wait, destroy) on their own children with distinct exit codes; one cycle in three splits into a writer thread and a reader thread on the same handle with payloads of 64 KiB+1 ... "
+                "1 MiB, above the pipe capacity in both directions; one thread in six hammers reproc_strerror and compares with strerror_r. The unmodified library is built with ThreadSanitizer; a "
+                "per-plan generator inserts yields and micro-sleeps at every libc boundary call. Oracles: any ThreadSanitizer report; every child's descriptor table at entry is {0,1,2,exit handle}; "
+                "every child echoes exactly its own bytes, sees end-of-file when its own parent closes stdin (its own report), and every wait returns its own code; strerror strings are per thread."),
+    level_note=("This family cannot enumerate interleavings: the claim is 'no race reported and no cross-talk on N generated plans'. ThreadSanitizer's happens-before analysis flags an unsynchronised "
+                "conflicting pair whenever both accesses execute, without needing the unlucky schedule; a purely logical race with no shared memory access is found only if the seeded yields produce it."),
+    technique="property-based generation of thread plans + ThreadSanitizer race detection + cross-talk invariants from the children's own reports",
+    rule=("tape -> thread count, per thread worker/strerror, cycles (payload size, chunk size, reader/writer split), yield level, yield seed. Non-trivial: at least two threads were inside reproc_start "
+          "concurrently (measured with an atomic), or a reader/writer pair overlapped. Distinct: hash of the plan."),
+    essential=dict(quick=["concurrent-starts", "four-or-more-concurrent-starts", "reader-writer-overlap", "strerror-threads"]),
+    assumptions=["one operation of a kind per child at a time (README, Multithreading)", "REPROC_MULTITHREADED build (pthread_sigmask), as in the pinned baseline"],
 )
